@@ -350,6 +350,7 @@ theorem liveOf_length (ts : List (Child σ)) : (liveOf ts).length = ts.length :=
 
 /-- `Advance(k)` on a started union whose heap is `ts` -/
 theorem union_advance_live (o : IterOps σ) {ts : List (Child σ)} {C : Cursor} {k : Nat} (hC : C.WF)
+    (hk : o.dom k)
     (hlt : ∀ v, C.cur = some v → v < k)
     (hinv : ∀ t ∈ ts, Good o t ∧ ∀ x ∈ t.c.xs, x ∈ C.xs)
     (hcompl : ∀ x ∈ C.xs, k ≤ x → ∃ t ∈ ts, x ∈ t.c.xs ∧ t.v ≤ x) :
@@ -357,7 +358,7 @@ theorem union_advance_live (o : IterOps σ) {ts : List (Child σ)} {C : Cursor} 
       ((C.advance k).1 = true → UInv o ts' (C.advance k).2) := by
   obtain ⟨ts', hl1, hl2, hl3⟩ := loop_spec o (· < k) (o.advance k) k 0 C.xs
     (by intro v _; simp)
-    (by intro t htg _ _; exact htg.1.advance k)
+    (by intro t htg _ _; exact htg.1.advance k hk)
     (ts.length + 1) ts
     (by have := List.length_filter_le (fun t : Child σ => decide (t.v < k)) ts; omega)
     (fun t ht => ⟨(hinv t ht).1, Nat.zero_le _, (hinv t ht).2⟩)
@@ -439,14 +440,14 @@ theorem union_simulation (o : IterOps σ) : Simulation (Union.ops o) (UnionRel o
       · intro ht
         refine ⟨(Cursor.next_spec hC).1 ht |>.1, ts', rfl, ?_⟩
         rw [hns ht]; exact hf2 (by rw [← hnb]; exact ht)
-  advance k st C h := by
+  advance k st C h hk := by
     obtain ⟨hC, h⟩ := h
     have hA := Cursor.advance_spec hC k
     cases st with
     | fresh its =>
       obtain ⟨ps, rfl, hn, hps, hcov⟩ := h
       obtain ⟨ts, hs1, hs2, hs3⟩ := start_spec o C.xs ps hps
-      obtain ⟨ts', ha1, ha2⟩ := union_advance_live o (ts := ts) (C := C) (k := k) hC
+      obtain ⟨ts', ha1, ha2⟩ := union_advance_live o (ts := ts) (C := C) (k := k) hC hk
         (by intro v hv; rw [hn] at hv; simp at hv) hs2
         (by
           intro x hx _
@@ -481,7 +482,7 @@ theorem union_simulation (o : IterOps σ) : Simulation (Union.ops o) (UnionRel o
       · obtain ⟨hgood, u', hu', hge, hcompl⟩ := hinv
         have huu : u' = u := by rw [hu] at hu'; simp at hu'; omega
         subst huu
-        obtain ⟨ts', ha1, ha2⟩ := union_advance_live o (ts := ts) (C := C) (k := k) hC
+        obtain ⟨ts', ha1, ha2⟩ := union_advance_live o (ts := ts) (C := C) (k := k) hC hk
           (by intro v hv; rw [hu] at hv; simp at hv; omega) hgood
           (fun x hx hkx => hcompl x hx (by omega))
         refine ⟨.live (liveOf ts'), ?_, ?_⟩
